@@ -214,6 +214,31 @@ func c16Session(r *ev.Run, m *dyn.Model, shape c16shape, f c16fault, batch, idx 
 		res.findings = append(res.findings, finding{"C16/cannot-connect", "the client never managed to connect although faults stopped"})
 		return res
 	}
+	if f.kind == "blackhole" {
+		// an impatient application: it retries a read-only transaction with a deadline
+		// shorter than the inactivity timeout, all the time. Attempts that get no answer
+		// are no sign of life of the peer and must not keep the probe from firing.
+		stopRetry := make(chan struct{})
+		var retryWG sync.WaitGroup
+		retryWG.Add(1)
+		go func() {
+			defer retryWG.Done()
+			for {
+				select {
+				case <-stopRetry:
+					return
+				case <-time.After(40 * time.Millisecond):
+				}
+				rctx, rcancel := context.WithTimeout(ctx, 80*time.Millisecond)
+				_, _ = cl.Transact(rctx, ovsdb.Operation{Op: "select", Table: "Marker", Where: []ovsdb.Condition{{Column: "name", Function: "==", Value: "nobody"}}})
+				rcancel()
+			}
+		}()
+		defer func() {
+			close(stopRetry)
+			retryWG.Wait()
+		}()
+	}
 	monitored := map[string]map[string]bool{}
 	allCols := map[string]bool{"name": true, "n": true, "tags": true, "ports": true}
 	markers := map[string]string{} // marker name -> "ok" / "error"
